@@ -137,6 +137,15 @@ def plane() -> Iterator[Tuple[str, dict, dict]]:
         for n in (2, 3):
             for xs in itertools.product(UNHASHABLE, repeat=n):
                 yield "pred", {"k": "UniqueItems", "pid": pid}, {"t": t, "oid": 0, "xs": list(xs)}
+    # items of a hashable *type* that cannot be hashed (a tuple holding a list / dict / set), next to hashable tuples
+    # and plain unhashables: only trying to hash tells
+    T = lambda *xs: {"t": "tuple", "oid": 0, "xs": list(xs)}      # noqa: E731
+    HALF = [T(I(1), UNHASHABLE[0]), T(UNHASHABLE[2]), T(T(UNHASHABLE[5])), T(I(1), T(I(2))), T(B(True), UNHASHABLE[4]),
+            UNHASHABLE[0], I(1)]
+    for t in ("list", "tuple"):
+        for n in (1, 2, 3):
+            for xs in itertools.product(HALF, repeat=n):
+                yield "pred", {"k": "UniqueItems", "pid": pid}, {"t": t, "oid": 0, "xs": list(xs)}
     for n in range(0, 4):
         for xs in itertools.combinations(hash_atoms[4:], n):
             x = {"t": "set", "oid": 0, "xs": list(xs)}
@@ -230,6 +239,10 @@ def run_real(kind: str, pd: dict, xd: dict) -> Tuple[dict, List[str], dict]:
             out = {"ok": wire.canon_value(ctx, r)}
     except BaseException as e:  # noqa
         out = {"raised": wire.exn_name(e)}
+        if kind == "pred" and pd["k"] == "UniqueItems" and isinstance(e, TypeError) and isinstance(x, (list, tuple, set)):
+            # "uniqueness ... works for unhashable items": failing to hash an item is the predicate's to handle
+            fails.append(f"UniqueItems raised TypeError ({str(e)[:60]}) on a collection: it is documented to work for "
+                         f"unhashable items")
     if kind == "pred" and pd["k"] == "Regex" and isinstance(x, str):
         # "regex match at the start", for the pattern object the predicate was given - flags included, whatever other
         # RegexPredicate instances have been asked before (checked against `re` itself, not against the model)
